@@ -436,6 +436,9 @@ def run(prog, rep, tier):
     rep.rule('VALUE-dead', 'no result of a call is bound to a local that is never read (reaching '
              'definitions)')
     check_dead_computations(prog, rep, ['tenpy/algorithms/mps_common.py', 'tenpy/algorithms/dmrg.py', 'tenpy/algorithms/vumps.py'])
+    from ..flow import check_undefined_attrs
+    rep.rule('ATTR-defined', 'every self.X read names an attribute bound somewhere in the class family')
+    check_undefined_attrs(prog, rep, ['tenpy/algorithms/mps_common.py', 'tenpy/algorithms/dmrg.py', 'tenpy/algorithms/vumps.py'])
     return rep.finish(
         level='other',
         explanation='Protocol facts of the sweep framework decided per engine class: hook keys '
